@@ -151,14 +151,25 @@ JUMP_PATTERNS = [
 ]
 
 
+# value-producing opcodes: `X ISZERO ISZERO` must only collapse for the members of _RETURNS_ZERO_OR_ONE
+VALUE_OPS = ["ADD", "SUB", "MUL", "DIV", "MOD", "EXP", "NOT", "AND", "OR", "XOR", "SHL", "SHR", "SAR", "BYTE", "MLOAD", "SLOAD",
+             "TLOAD", "CALLDATALOAD", "BALANCE", "EXTCODESIZE", "EXTCODEHASH", "CREATE", "CREATE2", "ADDRESS", "CALLER",
+             "CALLVALUE", "CALLDATASIZE", "GAS", "MSIZE", "KECCAK256", "SHA3", "SELFBALANCE", "LT", "GT", "SLT", "SGT", "EQ",
+             "ISZERO", "CALL", "STATICCALL", "DELEGATECALL", "CALLCODE", "DUP1", "PUSH0"]
+PATTERNS_01 = [[x, "ISZERO", "ISZERO"] for x in VALUE_OPS] + [["SWAP1", x.upper()] for x in
+                                                               ["ADD", "MUL", "EQ", "AND", "OR", "XOR", "SUB", "DIV", "LT", "GT", "SHL"]]
+
+
 def gen_labelled_asm(rnd, n):
     out = []
     while len(out) < n:
         r = rnd.random()
         if r < 0.4:
             out += rnd.choice(JUMP_PATTERNS)
-        elif r < 0.6:
+        elif r < 0.52:
             out += rnd.choice(PATTERNS)
+        elif r < 0.6:
+            out += rnd.choice(PATTERNS_01)
         elif r < 0.68:
             out += ["PUSH1", rnd.choice([0, 1, 32])]
         elif r < 0.76:
@@ -243,3 +254,31 @@ def pattern_evm_differential(chain, rnd, extra=40):
             return n, {"assembly": show(prog), "optimized_assembly": show(opt), "unoptimized_result": outs[0],
                        "optimized_result": outs[1]}
     return n, None
+
+
+def opcode_set_probe(chain, extra_ops):
+    """Search for an opcode wrongly treated as 0/1-valued: `args X ISZERO ISZERO` with and without optimize_assembly."""
+    import copy
+
+    from vyper.evm.assembler import assembly_to_evm
+    from vyper.evm.assembler.optimizer import optimize_assembly
+    for x in sorted(extra_ops):
+        for arg in (0, 3, 32):
+            prog = []
+            for _ in range(8):
+                prog += ["PUSH1", arg]
+            prog += [x, "ISZERO", "ISZERO", "PUSH1", 0, "MSTORE", "PUSH1", 32, "PUSH1", 0, "RETURN"]
+            opt = copy.deepcopy(prog)
+            try:
+                optimize_assembly(opt)
+                outs = []
+                for a in (prog, opt):
+                    addr = chain.set_code(None, assembly_to_evm(a)[0])
+                    r = chain.call(addr, b"")
+                    outs.append((r.ok, r.out.hex()))
+            except Exception:  # noqa: not an opcode the assembler knows
+                continue
+            if outs[0][0] and outs[0] != outs[1]:
+                return {"assembly": show(prog), "optimized_assembly": show(opt), "unoptimized_result": outs[0],
+                        "optimized_result": outs[1], "opcode": x}
+    return None
